@@ -353,7 +353,7 @@ func init() {
 			}
 			return m
 		},
-		NumCases: func(c *core.Ctx) int { return c.Pick(6000, 120000) },
+		NumCases: func(c *core.Ctx) int { return c.Pick(20000, 400000) },
 		Run:      func(c *core.Ctx, i int) { runRoundTrip(c, i, true, false) },
 		Floors:   rtFloors,
 		Findings: map[string]func(c *core.Ctx) string{"c01.nested-null": findingNestedNull},
@@ -369,7 +369,7 @@ func init() {
 		Modes: func(tier string) []core.Mode {
 			return []core.Mode{{Name: "plain", Variant: "plain"}}
 		},
-		NumCases: func(c *core.Ctx) int { return c.Pick(6000, 150000) },
+		NumCases: func(c *core.Ctx) int { return c.Pick(20000, 400000) },
 		Run:      func(c *core.Ctx, i int) { runRoundTrip(c, i, false, true) },
 		Floors:   rtFloors,
 	})
